@@ -15,7 +15,7 @@ func init() { props["C18"] = checkC18 }
 
 func checkC18(c *Ctx) {
 	c.Decides("MAPRANGE: every `range` over a map in the repository is classified; a body (followed into repository callees, depth<=3) that writes, appends without a following sort, accumulates floats, keeps the first/last entry or stores under a key not derived from the iteration key makes the result depend on Go's randomised map order")
-	c.Decides("RANDSRC: math/rand.Seed is called only from the root command's PersistentPreRun with the --seed storage; every other PersistentPreRun[E] delegates to it; no private random source (rand.New/NewSource, crypto/rand, math/rand/v2); time.Now() flows only into the seed default (seed == -1) and the support log; no %p formatting")
+	c.Decides("RANDSRC: math/rand.Seed is called only from the root command's PersistentPreRun with the --seed storage; every other PersistentPreRun[E] delegates to it; no private random source (rand.New/NewSource, crypto/rand, math/rand/v2, hash/maphash whose seeds are per-process, os.Getpid); time.Now() flows only into the seed default (seed == -1) and the support log; no %p formatting")
 	c.DoesNotDecide("order of per-tree records of threaded commands (permitted by the property); order dependence hidden behind external calls assumed pure (listed in evidence); injectivity of keys derived from the iteration key")
 	c.Assume = append(c.Assume, "objects looked up by distinct map keys are distinct", "external (non-repository) calls without a Write/Print-like name have no order-dependent effect")
 
@@ -109,6 +109,10 @@ func (c *Ctx) randSrc(pkgs []*packages.Package, repo bool) {
 		for _, f := range p.Syntax {
 			for _, imp := range f.Imports {
 				ip := strings.Trim(imp.Path.Value, `"`)
+				if ip == "hash/maphash" {
+					o := c.Violation("RANDSRC", "private-source/import "+ip+"@"+p.PkgPath, imp.Pos(), "imports hash/maphash: its seeds are drawn at random in every process (MakeSeed, zero Hash), so anything ordered or keyed by these hashes differs between runs whatever --seed says")
+					o.Clause = "byte-identical output for the same input, options and seed, in a new process"
+				}
 				if ip == "crypto/rand" || ip == "math/rand/v2" {
 					o := c.Violation("RANDSRC", "private-source/import "+ip+"@"+p.PkgPath, imp.Pos(), "imports "+ip+": a random source that --seed does not control")
 					o.Clause = "byte-identical output for the same input, options and seed"
@@ -135,6 +139,10 @@ func (c *Ctx) randSrc(pkgs []*packages.Package, repo bool) {
 							c.Violation("RANDSRC", "private-source/rand."+fn.Name()+"@"+c.enclosingFuncName(info, stack), x.Pos(), "creates a private random source with rand."+fn.Name()+": draws from it are not controlled by the single seeded global source").Clause = "results are a deterministic function of input, options and seed"
 						default:
 							nDraw++
+						}
+					case "os":
+						if fn.Name() == "Getpid" || fn.Name() == "Getppid" {
+							c.Violation("RANDSRC", "process/os."+fn.Name()+"@"+c.enclosingFuncName(info, stack), x.Pos(), "reads the process id, which differs between runs").Clause = "byte-identical output for the same input, options and seed, in a new process"
 						}
 					case "time":
 						if fn.Name() == "Now" {
